@@ -37,7 +37,7 @@ def jobs(tier):
             out.append({'name': f'pred-{op}-{H.shape_str(shape)}', 'mode': 'pred', 'op': op, 'shape': list(shape), 'budget': 900, 'cost': 10 * len(shape) ** 2})
     for key in H.ALL:
         for op in ('rate', 'predict_win', 'predict_draw', 'predict_rank'):
-            out.append({'name': f'valid-{key}-{op}', 'mode': 'valid', 'model': key, 'op': op, 'tier': tier if key == 'pl' else 'quick',
+            out.append({'name': f'valid-{key}-{op}', 'mode': 'valid', 'model': key, 'op': op, 'tier': 'quick',  # the larger grammar of the thorough tier is explored per class in C13; here every path also calls the four other classes
                         'budget': 1200 if tier == 'quick' else 3000, 'cost': 400 if op == 'rate' else 20})
     out.append({'name': 'rating', 'mode': 'rating', 'budget': 300, 'cost': 5})
     out.append({'name': 'signatures', 'mode': 'sig', 'budget': 60, 'cost': 1})
